@@ -517,7 +517,12 @@ int main(int argc, char **argv)
     auto R = [](long a, long b) { return Rational::from_two_ints(a, b); };
     std::vector<std::pair<std::string, RCP<const Basic>>> leaves = {
         {"x", x},           {"y", y},          {"2", integer(2)}, {"-1", integer(-1)},
-        {"1/2", R(1, 2)},   {"-2/3", R(-2, 3)}, {"I", I},          {"1/2+I/3", Complex::from_two_nums(*R(1, 2), *R(1, 3))}};
+        {"1/2", R(1, 2)},   {"-2/3", R(-2, 3)}, {"I", I},          {"1/2+I/3", Complex::from_two_nums(*R(1, 2), *R(1, 3))},
+        // structured leaves: closed complex bases that are NOT plain Complex numbers (so pow() cannot fold them) with |z| != 1,
+        // and the exponents -2, -3: as_real_imag of z**(-n) has its own branch (added after seeded change C36 escaped: the
+        // atom-only alphabet reaches (sqrt(2)+I)**(-2) only after 4 operations)
+        {"sqrt(2)+I", add(sqrt(integer(2)), I)}, {"2+sqrt(3)*I", add(integer(2), mul(sqrt(integer(3)), I))}, {"sin(2+I)", sin(add(integer(2), I))},
+        {"-2", integer(-2)}, {"-3", integer(-3)}};
     for (auto &l : leaves) {
         bool fresh;
         SS.add(l.second, l.first, 0, &fresh);
